@@ -228,9 +228,38 @@ def weight_once(r, F):
     r.require(ok, w, "Record::weight==Data.weight", "returns the stored field", "Record::weight does not return the stored weight field", ln=w.lo)
 
 
+def capacity_split(r, F):
+    """construction and resize derive every shard capacity from the one split function, with (total, number of shards, shard index)"""
+    scf = F.fn("foyer_memory::raw::RawCache::shard_capacity_for")
+    # base + (index < remainder): the returned value depends on all three parameters
+    sl = backslice(scf, 0, "dep")
+    r.require({1, 2, 3} <= sl.args, scf, "shard_capacity_for(total, shards, index) uses all three", "quotient, remainder and index all contribute",
+              "shard_capacity_for ignores one of total / shards / index", ln=scf.lo)
+    divs = [s for b in scf.blocks for s in b.stmts if s.k == "assign" and s.rv.k == "bin" and s.rv.op in ("Div", "Rem")]
+    r.require({s.rv.op for s in divs} == {"Div", "Rem"}, scf, "quotient and remainder", "total / shards and total % shards", "the split no longer uses quotient and remainder", ln=scf.lo)
+    for short in ("foyer_memory::raw::RawCache::new", "foyer_memory::raw::RawCache::resize"):
+        f = F.fn(short)
+        sites = [(g, b) for g in [f] + F.descendants(f) for b in g.calls_to(r"RawCache::<E, S, I>::shard_capacity_for$")]
+        ok = len(sites) == 1
+        if ok:
+            g, b = sites[0]
+            ok = 2 in backslice(g, b.term.args[2], "prov").args   # the index is the closure's parameter (the range element)
+        r.require(ok, f, "%s splits with shard_capacity_for(total, shards, index)" % short.rsplit("::", 1)[-1], "one split function, index = the shard being built",
+                  "%s does not derive each shard's capacity from shard_capacity_for(.., index)" % short, ln=f.lo)
+    # the capacities computed are the ones installed: RawCacheShard.capacity in new(), shard.capacity in resize (C05.resize)
+    new = F.fn("foyer_memory::raw::RawCache::new")
+    aggs = [(g, s) for g in [new] + F.descendants(new) for b in g.blocks for s in b.stmts if s.k == "assign" and s.rv.k == "agg" and s.rv.j.get("adt") == SHARD]
+    ok = False
+    for g, s in aggs:
+        fl = dict(s.rv.agg_fields())
+        ok = 2 in backslice(g, fl["capacity"], "prov").args and fl["usage"].const_val() == 0 and fl["entries"].const_val() == 0
+    r.require(ok, new, "new shard: capacity = its split share, usage = entries = 0", "a fresh shard starts empty with its share", "a fresh shard does not start with usage 0 / entries 0 / its capacity share", ln=new.lo)
+
+
 def run(chk, F):
     chk.run_rule("C05.paired-accounting", "every index mutation of a shard is matched by the usage and entries updates on every path; only shard methods write them", 12, paired_accounting, F)
     chk.run_rule("C05.evict-loop", "evict pops exactly while usage > target, stops on an empty container, removes every victim from the index", 3, evict_loop, F)
     chk.run_rule("C05.target", "emplace evicts to capacity - weight(new) before inserting", 2, target, F)
     chk.run_rule("C05.resize", "resize stores the new shard capacity and evicts down to that same value", 4, resize, F)
+    chk.run_rule("C05.capacity-split", "construction and resize derive shard capacities from the one quotient/remainder split by shard index; fresh shards start empty", 5, capacity_split, F)
     chk.run_rule("C05.weight-once", "an entry's weight is computed once by the weighter and never rewritten", 2, weight_once, F)
